@@ -37,7 +37,7 @@ def gen_routing(ctx, k, debug):
                 data = uplink.payload(rng, n, v)
             else:
                 data = bytes(uplink.rb(rng) for _ in range(rng.randrange(0, 9)))
-            addr = (0, 0, 0) if rng.random() < 0.6 else (5, 0, 0)
+            addr = rng.choice([(0, 0, 0), (0, 0, 0), (5, 0, 0), (5, 6, 0), (5, 6, 7), (9, 200, 144)])      # senders on every address level
             if n in ('MSG_NODE_LOST', 'MSG_NODE_NEW') and bytes(data[2:9]).hex() == BOARD1_UID:
                 continue
             m = model.build_msg(addr, 0, t, data)
